@@ -18,7 +18,9 @@ TNext == /\ \E j \in 1 .. 16 : l' = 16 * l + j /\ l' <= N
 TSpec == TInit /\ [][TNext]_<<l, il, queue, retries, state, last, hist>>
 R == Trace[l]
 \* monitor (C05): an offset is reported only on the basis of an acceptable datagram
-TOnlyGenuine == (l > 0 /\ R.got = "ok") => Accept(R.d, R.il)
+\* (records of the NTS driver carry ntson = TRUE; the others have no such field)
+NtsOn(r) == "ntson" \in DOMAIN r /\ r.ntson
+TOnlyGenuine == (l > 0 /\ R.got = "ok") => AcceptX(R.d, R.il, NtsOn(R))
 \* strict: the reaction is the one the specification's receive loop has
 SReaction == (l > 0 /\ R.want # "" /\ R.got # "ignored") => R.want = R.got
 =============================================================================
